@@ -648,7 +648,7 @@ impl<'a> VisitMut for WrapPass<'a> {
 // R7 (method chains): `RECV.m1(A..).m2(B..)` -> `wrapper(RECV | &mut RECV, A.., B..)` for chains named
 // in the contract file; the wrapper in the prelude has the original chain as its body.
 
-struct ChainSpec { chain: Vec<String>, wrapper: String, recv_mode: String, used: u64 }
+struct ChainSpec { chain: Vec<String>, wrapper: String, recv_mode: String, used: u64, soft: bool }
 struct ChainPass<'a> { rules: &'a mut Rules, specs: &'a mut Vec<ChainSpec> }
 impl<'a> VisitMut for ChainPass<'a> {
     fn visit_expr_mut(&mut self, e: &mut Expr) {
@@ -816,7 +816,7 @@ impl<'a> VisitMut for ClosurePass<'a> {
             {
                 // statements / loops inside an annotated closure receive their inserts and invariants here
                 // (the closure becomes verbatim text afterwards)
-                let mut ip = InsertPass { specs: &mut *self.ins, markers: &mut *self.markers, counts: std::mem::take(&mut self.ins_counts) };
+                let mut ip = InsertPass { specs: &mut *self.ins, markers: &mut *self.markers, counts: std::mem::take(&mut self.ins_counts), ctx: vec![] };
                 ip.visit_expr_mut(&mut c.body);
                 self.ins_counts = ip.counts;
                 let mut lf = LoopFinalPass { loops: self.loops, markers: &mut *self.markers, used: vec![], seen: vec![] };
@@ -839,9 +839,9 @@ impl<'a> VisitMut for ClosurePass<'a> {
 // inserts: ghost/proof statements at anchors
 
 #[derive(Clone)]
-struct InsertSpec { at: String, mtch: String, nth: u64, loop_ord: Option<u64>, text: String, used: bool }
+struct InsertSpec { at: String, mtch: String, nth: u64, loop_ord: Option<u64>, text: String, used: bool, within: String }
 
-struct InsertPass<'a> { specs: &'a mut Vec<InsertSpec>, markers: &'a mut Markers, counts: BTreeMap<usize, u64> }
+struct InsertPass<'a> { specs: &'a mut Vec<InsertSpec>, markers: &'a mut Markers, counts: BTreeMap<usize, u64>, ctx: Vec<String> }
 impl<'a> InsertPass<'a> {
     fn mk_stmt(&mut self, text: &str) -> Stmt {
         let id = self.markers.mk(text);
@@ -859,8 +859,9 @@ impl<'a> VisitMut for InsertPass<'a> {
             let mut before: Vec<Stmt> = vec![];
             let mut after: Vec<Stmt> = vec![];
             for i in 0..self.specs.len() {
-                let (at, m, nth) = { let sp = &self.specs[i]; (sp.at.clone(), norm(&sp.mtch), sp.nth) };
-                if (at == "before" || at == "after") && !m.is_empty() && sn.starts_with(&m) {
+                let (at, m, nth, within) = { let sp = &self.specs[i]; (sp.at.clone(), norm(&sp.mtch), sp.nth, norm(&sp.within)) };
+                let ctx_ok = within.is_empty() || self.ctx.iter().any(|c| c.starts_with(&within));
+                if (at == "before" || at == "after") && !m.is_empty() && sn.starts_with(&m) && ctx_ok {
                     let c = self.counts.entry(i).or_insert(0);
                     let this = *c;
                     *c += 1;
@@ -877,7 +878,13 @@ impl<'a> VisitMut for InsertPass<'a> {
             out.extend(after);
         }
         b.stmts = out;
-        visit_mut::visit_block_mut(self, b);
+        // descend statement by statement so that `within` can refer to the enclosing statement's text
+        for st in b.stmts.iter_mut() {
+            let txt = stmt_norm(st);
+            self.ctx.push(txt);
+            self.visit_stmt_mut(st);
+            self.ctx.pop();
+        }
     }
     fn visit_arm_mut(&mut self, arm: &mut Arm) {
         // arm_start / arm_end anchors: addressed by the arm's pattern text (prefix), nth occurrence
@@ -1086,11 +1093,11 @@ fn process_fn(
     let mut chains: Vec<ChainSpec> = vec![];
     if let Some(Value::Array(a)) = spec.get("adapts") {
         for v in a {
-            chains.push(ChainSpec { chain: get_str(v, "chain").unwrap_or_default().split('.').map(|s| s.to_string()).collect(), wrapper: get_str(v, "wrapper").unwrap_or_default(), recv_mode: get_str(v, "recv").unwrap_or_default(), used: 0 });
+            chains.push(ChainSpec { chain: get_str(v, "chain").unwrap_or_default().split('.').map(|s| s.to_string()).collect(), wrapper: get_str(v, "wrapper").unwrap_or_default(), recv_mode: get_str(v, "recv").unwrap_or_default(), used: 0, soft: v.get("soft").and_then(|x| x.as_bool()).unwrap_or(false) });
         }
     }
     ChainPass { rules, specs: &mut chains }.visit_block_mut(block);
-    for c in &chains { if c.used == 0 { errors.push(format!("{}: lost anchor: method chain {} not found", path, c.chain.join("."))); } }
+    for c in &chains { if c.used == 0 && !c.soft { errors.push(format!("{}: lost anchor: method chain {} not found", path, c.chain.join("."))); } }
     // R14
     let mut wraps: Vec<WrapSpec> = vec![];
     if let Some(Value::Array(a)) = spec.get("wraps") {
@@ -1128,6 +1135,7 @@ fn process_fn(
                 loop_ord: v.get("loop").and_then(|x| x.as_u64()),
                 text: get_str(v, "text").unwrap_or_default(),
                 used: false,
+                within: get_str(v, "within").unwrap_or_default(),
             });
         }
     }
@@ -1148,7 +1156,7 @@ fn process_fn(
         }
     }
     {
-        let mut ip = InsertPass { specs: &mut ins, markers: &mut markers, counts: closure_ins_counts };
+        let mut ip = InsertPass { specs: &mut ins, markers: &mut markers, counts: closure_ins_counts, ctx: vec![] };
         ip.visit_block_mut(block);
     }
     for sp in ins.iter_mut() {
